@@ -63,6 +63,8 @@ pub struct Sel {
     pub pin2: Option<usize>,
     /// slider-table universe at position level
     pub occ: bool,
+    /// many same pieces reaching one square
+    pub sanmany: bool,
     pub counters: bool,
     pub material: Option<Vec<u32>>,
     /// deep DFS without dedup from the first `n` seeds to the given depth
@@ -175,6 +177,11 @@ pub fn run_universes(run: &mut Run, sel: &Sel, disagree_idx: usize, check: PosCh
     if sel.occ {
         run.par_shards("OCC (every blocker subset on the rook / bishop lines of every square, as positions)", uni::OCC_SHARDS, |ctx, sh| {
             uni::occ(sh, &mut |p| visit(ctx, p, disagree_idx, check));
+        });
+    }
+    if sel.sanmany {
+        run.par_shards("SANMANY (2..8 own pieces of one kind all reaching one square, every subset)", uni::SANMANY_SHARDS, |ctx, sh| {
+            uni::sanmany(sh, &mut |p| visit(ctx, p, disagree_idx, check));
         });
     }
     if let Some((n, pin)) = sel.sanamb {
